@@ -207,6 +207,18 @@ def ivector_scenarios(rng, quick, tree_recs):
             comp = bm.with_empty_partitions(rng.choice(list(bm.compositions(n))), rng, rng.randint(1, 2))
             out.append({"comp": list(comp), "mode": rng.choice(("Shared", "Isolated")), "iters": rng.choice((1, 2)),
                         "builder": "exact"})
+    # an empty partition at EVERY position of the reduction tree (left and right operand of a pair, the odd one
+    # carried over), in both memory modes, with enough iterations for anything an empty partition's E-step result
+    # keeps between iterations to come back (round eight: a shared "zero" result accumulated into by the reduction)
+    for base in ((1, 1, 2), (2, 2), (1, 3), (1, 1, 1, 1)) if quick else ((1, 1, 2), (2, 2), (1, 3), (1, 1, 1, 1), (2, 1, 2), (5,), (1, 2, 1, 1)):
+        for pos in range(len(base) + 1):
+            comp = list(base)
+            comp.insert(pos, 0)
+            for mode in ("Shared", "Isolated"):
+                out.append({"comp": comp, "mode": mode, "iters": 3, "builder": "exact"})
+        comp = [0] + list(base) + [0]
+        comp.insert(2, 0)
+        out.append({"comp": comp, "mode": "Shared", "iters": 3, "builder": "exact"})
     # the behaviours PairTree exported (number of partitions, memory mode, max_iterations); quick: a seeded sample
     # that keeps the small odd and even lengths
     recs = tree_recs if not quick else \
